@@ -98,8 +98,9 @@ def gen_case(g, tier, idx):
     Returns (harness line `sukfs ...`, [equivalent single-call `sukf ...` lines], meta)."""
     r = g.r
     mmax = 12 if tier == "quick" else 18
-    style = r.choice(["full", "full", "reduced", "reduced", "nondividing", "nondividing", "exactsqrt", "smallnoise", "affine", "fault", "wc0zero", "scalar"])
+    style = r.choice(["full", "full", "reduced", "reduced", "nondividing", "nondividing", "exactsqrt", "smallnoise", "affine", "fault", "wc0zero", "scalar", "circular", "circular"])
     n = idx % 4 + 1 if idx < 8 else r.randint(1, 4)
+    nc = r.randint(1, n) if style == "circular" else 0      # the last nc state rows are Euler angles
     bs = [1, 2, 3, 5, 6, 3, 2, 1][idx % 8] if idx < 16 else r.choice([1, 2, 2, 3, 3, 5, 6])
     nbmax = max(1, min(4, mmax // bs))
     nb = min(nbmax, idx % 4 + 1) if idx < 8 else r.randint(1, nbmax)
@@ -133,7 +134,7 @@ def gen_case(g, tier, idx):
     H = [[r.uniform(-1.5, 1.5) for _ in range(n)] for _ in range(msz)]
     h0 = [r.uniform(-1, 1) for _ in range(msz)]
     ncalls = r.choice([1, 2, 2, 3])
-    head = [str(n), str(msz), str(bs), str(red)]
+    head = [str(n), str(nc), str(msz), str(bs), str(red)]
     ut = [hexd(alpha), hexd(beta), hexd(kap)]
     mid = vlib.fmt_mat_cm(H) + [hexd(v) for v in h0]
     Rt = vlib.fmt_mat_cm(R)
@@ -147,6 +148,14 @@ def gen_case(g, tier, idx):
             fail = tuple(1 if i == j else 0 for i in range(3))
         means = [[r.uniform(-2, 2) for _ in range(n)] for _ in range(k)]
         Ps = [g.spd(n, cond=10 ** r.uniform(0, 3), scale=10 ** r.uniform(-1.5, 0.3)) for _ in range(k)]
+        if nc:
+            # angles anywhere in (-pi, pi], some next to the cut so that the sigma points wrap; spreads of the
+            # circular rows kept small (|sqrt(c) sigma| well below pi: no aliasing, the sigma points reproduce P)
+            for c in range(k):
+                for i in range(n - nc, n):
+                    means[c][i] = r.choice([r.uniform(-3.1, 3.1), 3.1, -3.12, 3.14])
+                sc = [1.0] * (n - nc) + [0.05] * nc
+                Ps[c] = [[Ps[c][a][b] * sc[a] * sc[b] for b in range(n)] for a in range(n)]
         y = [r.uniform(-3, 3) for _ in range(msz)]
         outw = [r.uniform(0.01, 1.0) for _ in range(k)]
         bel = [hexd(means[c][i]) for c in range(k) for i in range(n)] \
@@ -158,7 +167,7 @@ def gen_case(g, tier, idx):
         htoks += [str(k)] + [str(f) for f in fail] + [hexd(rscale)] + yt + bel
         singles.append(" ".join(["sukf"] + head + [str(k)] + ut + [str(kind)] + [str(f) for f in fail] + mid + yt + Rc + bel))
         ks.append(k); fails.append(list(fail))
-    meta = {"style": style, "n": n, "msz": msz, "bs": bs, "red": red, "ks": ks, "kind": kind, "fails": fails,
+    meta = {"style": style, "n": n, "nc": nc, "msz": msz, "bs": bs, "red": red, "ks": ks, "kind": kind, "fails": fails,
             "ut": [alpha, beta, kap], "calls": ncalls}
     return " ".join(htoks), singles, meta
 
@@ -174,10 +183,10 @@ def split_calls(hout, ncalls):
 
 def parse_line(line):
     t = line.split()
-    n, msz, bs, red, k = (int(v) for v in t[1:6])
-    alpha, beta, kap = (unhex(v) for v in t[6:9])
-    kind = int(t[9]); fail = [int(v) for v in t[10:13]]
-    p = 13
+    n, nc, msz, bs, red, k = (int(v) for v in t[1:7])
+    alpha, beta, kap = (unhex(v) for v in t[7:10])
+    kind = int(t[10]); fail = [int(v) for v in t[11:14]]
+    p = 14
     p += msz * n + msz          # H, h0
     y = t[p:p + msz]; p += msz
     rsz = bs * bs if red else msz * msz
@@ -185,7 +194,7 @@ def parse_line(line):
     means = t[p:p + n * k]; p += n * k
     covs = t[p:p + n * n * k]; p += n * n * k
     outw = t[p:p + k]
-    return dict(n=n, msz=msz, bs=bs, red=red, k=k, ut=(alpha, beta, kap), kind=kind, fail=fail, y=y, Rt=Rt,
+    return dict(n=n, nc=nc, msz=msz, bs=bs, red=red, k=k, ut=(alpha, beta, kap), kind=kind, fail=fail, y=y, Rt=Rt,
                 means=means, covs=covs, outw=outw)
 
 
@@ -225,10 +234,28 @@ def parse_hout(h, c):
 
 # ----------------------------------------------------------------------------- driver line, comparison
 
+def unwrapped_X(c, o):
+    """input sigma points as hex tokens; circular rows (Euler angles) are replaced by m + directional_sub(X, m),
+    i.e. the offset the two corrections form with directional_sub — evaluated here (wrap into (-pi, pi])."""
+    n, nc, k, s = c["n"], c["nc"], c["k"], o["s"]
+    X = list(o["X"])
+    if nc == 0 or o["xcols"] != s * k:
+        return X
+    for i in range(k):
+        for a in range(n - nc, n):
+            m = unhex(c["means"][i * n + a])
+            for j in range(s):
+                idx = (i * s + j) * n + a
+                d = unhex(X[idx]) - m
+                d = math.atan2(math.sin(d), math.cos(d))
+                X[idx] = hexd(m + d)
+    return X
+
+
 def driver_line(c, o):
     n, msz, bs, red, k, s = c["n"], c["msz"], c["bs"], c["red"], c["k"], o["s"]
     zero = hexd(0.0)
-    X = o["X"] if o["xcols"] == s * k else [zero] * (n * s * k)
+    X = unwrapped_X(c, o) if o["xcols"] == s * k else [zero] * (n * s * k)
     Y = o["Y"] if o["ycols"] == s * k else [zero] * (msz * s * k)
     toks = ["sukf", str(n), str(msz), str(bs), str(red), str(k), str(s)] + [str(1 - f) for f in c["fail"]]
     toks += c["y"] + o["wm"] + o["wc"] + c["means"] + c["covs"] + c["outw"] + X + Y + c["Rt"]
@@ -269,7 +296,8 @@ def tolerances(c, o, i):
     n, msz, bs, red, k, s = c["n"], c["msz"], c["bs"], c["red"], c["k"], o["s"]
     nb = msz // bs
     wm = [unhex(v) for v in o["wm"]]; wc = [unhex(v) for v in o["wc"]]
-    X = [[unhex(o["X"][(i * s + j) * n + a]) for j in range(s)] for a in range(n)]
+    Xu = unwrapped_X(c, o)
+    X = [[unhex(Xu[(i * s + j) * n + a]) for j in range(s)] for a in range(n)]
     Yp = [[unhex(o["Y"][(i * s + j) * msz + a]) for j in range(s)] for a in range(msz)]
     m = [unhex(c["means"][i * n + a]) for a in range(n)]
     P = [[unhex(c["covs"][i * n * n + b * n + a]) for b in range(n)] for a in range(n)]
@@ -440,7 +468,8 @@ def check_case(line, meta, hout, dline, dout, stats, notes):
         # theorem's hypothesis hX (sigma points reproduce P) holds on the implementation's sigma points only
         # up to rounding, so the standard covariance is taken with Pxx = sum_j wc_j (X_j - m)(X_j - m)^T for P.
         s_ = o["s"]
-        Xf = [[Fraction(unhex(o["X"][(i * s_ + j) * n + a])) - Fraction(unhex(c["means"][i * n + a])) for j in range(s_)] for a in range(n)]
+        Xu_ = unwrapped_X(c, o)
+        Xf = [[Fraction(unhex(Xu_[(i * s_ + j) * n + a])) - Fraction(unhex(c["means"][i * n + a])) for j in range(s_)] for a in range(n)]
         Pxx = [[sum(wc[j] * Xf[a][j] * Xf[b][j] for j in range(s_)) for b in range(n)] for a in range(n)]
         dP = [Pxx[a][b] - Fraction(unhex(c["covs"][i * n * n + b * n + a])) for b in range(n) for a in range(n)]
         em = max(abs(a - b - e_) for a, b, e_ in zip(mo["cov"][ci], mo["u_cov"][ci], dP))
@@ -462,7 +491,7 @@ def check_case(line, meta, hout, dline, dout, stats, notes):
 
 def meta_of_single(line, style):
     c = parse_line(line)
-    return {"style": style, "n": c["n"], "msz": c["msz"], "bs": c["bs"], "red": c["red"], "ks": [c["k"]], "kind": c["kind"],
+    return {"style": style, "n": c["n"], "nc": c["nc"], "msz": c["msz"], "bs": c["bs"], "red": c["red"], "ks": [c["k"]], "kind": c["kind"],
             "fails": [c["fail"]], "calls": 1}
 
 
@@ -537,6 +566,8 @@ def run(ctx):
             bump("sub_size=%d" % c["bs"])
             bump("h kind %d" % c["kind"])
             bump("components=%d" % c["k"])
+            if c["nc"]:
+                bump("state with circular (Euler) rows")
             if ci > 0:
                 bump("corrected on a reused object (call %d)" % (ci + 1))
         if di is None:
@@ -579,5 +610,6 @@ def run(ctx):
         "inverse routine: every matrix the model run inverts is inverted once and certified exactly over Q (A X = 1, X A = 1)",
         "sigma_point() contract (C03): the input sigma points reproduce the predicted covariance; measured on every case (numeric.max_hx_err)",
         "floating point: tolerances scaled by cond(S) for the standard correction and cond(I + Y^T R^-1 Y), cond(R blocks) for the serial one",
-        "linear state layout and linear measurement space (Euler / quaternion layouts: C03, C14)",
+        "linear measurement space; state rows linear or Euler-circular with small angular spread (the offsets of circular rows are taken as "
+        "directional_sub of the implementation's sigma points, evaluated by the check: wrap into (-pi, pi]); quaternion layouts: C03, C14",
     ]
